@@ -229,7 +229,10 @@ class Calls(SpecRT, Strings, Loops, AnyVals, AbsSeqs):
                 return st.cattr[key]
             sc = self.schema(k.qualname)
             if sc is not None and attr in sc.cattrs:
-                v = self.fresh_of_kind(sc.cattrs[attr], '%s_%s' % (k.name, attr))
+                # the initial value of a class attribute has a deterministic name: a read in a forked state (spec
+                # evaluation, old()) and a read on the path itself denote the same prior value
+                with deterministic_names():
+                    v = self.fresh_of_kind(sc.cattrs[attr], 'C0_%s_%s' % (k.name, attr))
                 if isinstance(v, SRef):
                     # objects held by class attributes exist before the call under verification
                     st.assume(v.t >= 1)
